@@ -63,6 +63,36 @@ package altair
 //@   assigns anything
 //@   ensures err == nil ==> post != nil
 
+// ---------------------------------------------------------------- inactivity scores (C02)
+// The score list is an assumed view model with point-update semantics: score_at(version, view, index), where the
+// version counts the SetScore calls so far; SetScore changes the entry it names and no other.
+// process_inactivity_updates, per eligible index: participating (unslashed, timely target) -> score -= min(1, score),
+// otherwise score += INACTIVITY_SCORE_BIAS; then, outside a leak, score -= min(INACTIVITY_SCORE_RECOVERY_RATE, score).
+//@ sort StateA = AltairLikeBeaconState
+//@ sort ScoresP = *InactivityScoresView
+//@ ufun st_inact_err(StateA) bool
+//@ ufun st_inact(StateA) ScoresP
+//@ ufun score_err(int, ScoresP, int) bool
+//@ ufun score_at(int, ScoresP, int) int
+//@ define inact_step(s int, part bool, leak bool, bias int, rate int) int = (let a := ite(part, s - min(1, s), s + bias) in ite(leak, a, a - min(rate, a)))
+//@ func (s AltairLikeBeaconState) InactivityScores() (r, err)
+//@   trusted
+//@   opt noalloc
+//@   ensures (err != nil) == st_inact_err(s)
+//@   ensures err == nil ==> r != nil && r == st_inact(s)
+//@ func (v *InactivityScoresView) GetScore(index) (r, err)
+//@   trusted
+//@   opt noalloc
+//@   ensures (err != nil) == score_err(n_set_score, v, index)
+//@   ensures err == nil ==> r == score_at(n_set_score, v, index)
+//@ func (v *InactivityScoresView) SetScore(index, score) err
+//@   trusted
+//@   assigns ghost(n_set_score)
+//@   ensures n_set_score == old(n_set_score) + 1
+//@   ensures err == nil ==> score_at(n_set_score, v, index) == score
+//@   ensures err != nil ==> score_at(n_set_score, v, index) == score_at(old(n_set_score), v, index)
+//@   ensures forall k :: {score_at(n_set_score, v, k)} k != index ==> score_at(n_set_score, v, k) == score_at(old(n_set_score), v, k)
+
 // BEGIN C18 generated (tools/gen_c18.py in /verif)
 // cancelled: a context cancelled before the call makes it fail; surfaced: a cancellation observed by a poll
 // during the call makes it fail; polled: success after a poll means the context was not cancelled at entry.
@@ -153,7 +183,7 @@ package altair
 //@     invariant ctx_t > old(ctx_t) ==> !ctx_cancelled(ctx, old(ctx_t))
 
 //@ func ProcessInactivityUpdates(ctx, spec, attesterData, state) err
-//@   property C18
+//@   property C18 C02
 //@   panics off
 //@   requires ctx != nil
 //@   opt weakcalls
@@ -166,6 +196,16 @@ package altair
 //@   loop *
 //@     invariant ctx_t >= old(ctx_t) && (old(ctx_seen) || !ctx_seen)
 //@     invariant ctx_t > old(ctx_t) ==> !ctx_cancelled(ctx, old(ctx_t))
+//@   assigns ghost(n_set_score)
+//@   opt rangeindex=on
+//@   ensures c02_genesis: err == nil && old(attesterData.CurrEpoch) == 0 ==> n_set_score == old(n_set_score)
+//@   ensures c02_scores: err == nil && old(spec != nil && attesterData != nil && state != nil && attesterData.CurrEpoch != 0 && st_fin(state).Epoch <= attesterData.PrevEpoch && spec.INACTIVITY_SCORE_BIAS < 4294967296 && spec.INACTIVITY_SCORE_RECOVERY_RATE < 4294967296 && (forall i, j :: {attesterData.EligibleIndices[i], attesterData.EligibleIndices[j]} 0 <= i && i < j && j < len(attesterData.EligibleIndices) ==> attesterData.EligibleIndices[i] != attesterData.EligibleIndices[j]) && (forall k :: {score_at(n_set_score, st_inact(state), k)} score_at(n_set_score, st_inact(state), k) < 4611686018427387904)) ==> (forall j :: {attesterData.EligibleIndices[j]} 0 <= j && j < len(attesterData.EligibleIndices) ==> score_at(n_set_score, st_inact(state), attesterData.EligibleIndices[j]) == old(inact_step(score_at(n_set_score, st_inact(state), attesterData.EligibleIndices[j]), !attesterData.Flats[attesterData.EligibleIndices[j]].Slashed && attesterData.PrevParticipation[attesterData.EligibleIndices[j]] & 2 != 0, (attesterData.PrevEpoch - st_fin(state).Epoch > spec.MIN_EPOCHS_TO_INACTIVITY_PENALTY), spec.INACTIVITY_SCORE_BIAS, spec.INACTIVITY_SCORE_RECOVERY_RATE)))
+//@   ensures c02_others: err == nil ==> (forall k :: {score_at(n_set_score, st_inact(state), k)} (forall j :: {attesterData.EligibleIndices[j]} 0 <= j && j < len(attesterData.EligibleIndices) ==> attesterData.EligibleIndices[j] != k) ==> score_at(n_set_score, st_inact(state), k) == old(score_at(n_set_score, st_inact(state), k)))
+//@   loop 1
+//@     invariant n_set_score >= old(n_set_score) && inactivityScores == st_inact(state) && finalized == st_fin(state)
+//@     invariant old(spec != nil && attesterData != nil && state != nil && attesterData.CurrEpoch != 0 && st_fin(state).Epoch <= attesterData.PrevEpoch && spec.INACTIVITY_SCORE_BIAS < 4294967296 && spec.INACTIVITY_SCORE_RECOVERY_RATE < 4294967296 && (forall i, j :: {attesterData.EligibleIndices[i], attesterData.EligibleIndices[j]} 0 <= i && i < j && j < len(attesterData.EligibleIndices) ==> attesterData.EligibleIndices[i] != attesterData.EligibleIndices[j]) && (forall k :: {score_at(n_set_score, st_inact(state), k)} score_at(n_set_score, st_inact(state), k) < 4611686018427387904)) ==> (forall j :: {attesterData.EligibleIndices[j]} 0 <= j && j <= rangeindex ==> score_at(n_set_score, st_inact(state), attesterData.EligibleIndices[j]) == inact_step(score_at(old(n_set_score), st_inact(state), attesterData.EligibleIndices[j]), !attesterData.Flats[attesterData.EligibleIndices[j]].Slashed && attesterData.PrevParticipation[attesterData.EligibleIndices[j]] & 2 != 0, (attesterData.PrevEpoch - st_fin(state).Epoch > spec.MIN_EPOCHS_TO_INACTIVITY_PENALTY), spec.INACTIVITY_SCORE_BIAS, spec.INACTIVITY_SCORE_RECOVERY_RATE))
+//@     invariant old(spec != nil && attesterData != nil && state != nil && attesterData.CurrEpoch != 0 && st_fin(state).Epoch <= attesterData.PrevEpoch && spec.INACTIVITY_SCORE_BIAS < 4294967296 && spec.INACTIVITY_SCORE_RECOVERY_RATE < 4294967296 && (forall i, j :: {attesterData.EligibleIndices[i], attesterData.EligibleIndices[j]} 0 <= i && i < j && j < len(attesterData.EligibleIndices) ==> attesterData.EligibleIndices[i] != attesterData.EligibleIndices[j]) && (forall k :: {score_at(n_set_score, st_inact(state), k)} score_at(n_set_score, st_inact(state), k) < 4611686018427387904)) ==> (forall j :: {attesterData.EligibleIndices[j]} rangeindex < j && j < len(attesterData.EligibleIndices) ==> score_at(n_set_score, st_inact(state), attesterData.EligibleIndices[j]) == score_at(old(n_set_score), st_inact(state), attesterData.EligibleIndices[j]))
+//@     invariant forall k :: {score_at(n_set_score, st_inact(state), k)} (forall j :: {attesterData.EligibleIndices[j]} 0 <= j && j < len(attesterData.EligibleIndices) ==> attesterData.EligibleIndices[j] != k) ==> score_at(n_set_score, st_inact(state), k) == score_at(old(n_set_score), st_inact(state), k)
 
 //@ func ProcessParticipationFlagUpdates(ctx, spec, state) err
 //@   property C18
@@ -226,8 +266,10 @@ package altair
 //@   loop *
 //@     invariant ctx_t >= old(ctx_t) && (old(ctx_seen) || !ctx_seen)
 //@     invariant ctx_t > old(ctx_t) ==> !ctx_cancelled(ctx, old(ctx_t))
+//@   assigns ghost(n_set_score)
 //@   assigns ghost(n_eth1_reset), ghost(n_slash_reset), ghost(last_slash_reset), ghost(n_set_mix), ghost(last_set_mix_epoch), ghost(last_set_mix), ghost(n_hist_update)
 //@   assigns ghost(n_set_prevjust), ghost(set_prevjust), ghost(n_set_curjust), ghost(set_curjust), ghost(n_set_fin), ghost(set_fin), ghost(n_set_jbits), ghost(set_jbits)
+//@   assigns ghost(n_viter), ghost(viter_pos), ghost(viter_reg), ghost(n_val_write), ghost(n_set_exit), ghost(set_exit_v), ghost(set_exit_val), ghost(n_set_wd), ghost(set_wd_v), ghost(set_wd_val)
 
 //@ func (state *BeaconStateView) ProcessBlock(ctx, spec, epc, benv) err
 //@   property C18
@@ -245,5 +287,6 @@ package altair
 //@     invariant ctx_t > old(ctx_t) ==> !ctx_cancelled(ctx, old(ctx_t))
 //@   assigns ghost(n_set_mix), ghost(last_set_mix_epoch), ghost(last_set_mix)
 //@   assigns ghost(n_set_lhdr), ghost(set_lhdr)
+//@   assigns ghost(n_viter), ghost(viter_pos), ghost(viter_reg), ghost(n_val_write), ghost(n_set_exit), ghost(set_exit_v), ghost(set_exit_val), ghost(n_set_wd), ghost(set_wd_v), ghost(set_wd_val)
 
 // END C18 generated
